@@ -23,9 +23,7 @@ namespace avel {
         //=================================================
 
         explicit Denominator(Denom8u denom):
-            m(denom.m),
-            sh2(denom.sh2),
-            d(denom.d) {}
+            Denominator(vec64x8u{denom.value()}) {}
 
         explicit Denominator(vec64x8u d):
             Denominator(d, bit_width(d - vec64x8u{1})) {}
